@@ -977,6 +977,15 @@ func (c *client) establishRegion(reg hrpc.RegionInfo, addr string) {
 			})
 		}
 
+		select {
+		case <-c.done:
+			// Client has been closed while the region was being established.
+			// Close might have missed this region client, don't leave it behind.
+			client.Close()
+			return
+		default:
+		}
+
 		// connect to the region's regionserver.
 		// only the first caller to Dial gets to actually connect, other concurrent calls
 		// will block until connected or an error.
